@@ -272,7 +272,9 @@ Definition step2 (w : world) (op : list (list Z)) : world * result :=
                                         qeqb (znth q0 (d_read cellv dcell d p) j) fs) pix in
       let pvs1 := map (fun pv => (fst pv, zupd (x_read m (fst pv)) j (snd pv))) (combine pix vals) in
       let pvs0 := map (fun pv => (fst pv, zupd (d_read cellv dcell d (fst pv)) j (snd pv))) (combine pix vals) in
-      let m' := if guard_l1 then m else x_update k m URepl pvs1 false in
+      (* the view is another object: the parent's memoised count is NOT dropped (finding F22) *)
+      let mu := x_update k m URepl pvs1 false in
+      let m' := if guard_l1 then m else mkmap (nfine mu) (idx mu) (sp mu) (blank mu) (cache m) in
       let d' := if guard_l0 then d else x_dupdate k d URepl pvs0 false in
       (wset w hout (mkh k m' d'), [ok1; [if guard_l1 then 1 else 0; if guard_l0 then 1 else 0]])
     else if code =? 28 then
